@@ -17,8 +17,8 @@ fn lonlat() -> (f64, f64) {
 /// mirrored on (quarter, u) directly: forming 8 - x would round to 8 for tiny x and change the quarter.
 fn ref_quarter_u(lon: f64) -> (u64, f64) {
   let x = f64::from_bits(lon.to_bits() & 0x7FFF_FFFF_FFFF_FFFF) * FOUR_OVER_PI_K;        // in [0, 32.1]
-  let x8 = x - 8.0 * ((x / 8.0) as u64 as f64);                                          // x mod 8, exact
-  let q8 = (x8 / 2.0) as u64;                                                            // 0..=3
+  let x8 = x - 8.0 * ((x * 0.125) as u64 as f64);                                        // x mod 8, exact (no float division: a divider circuit is expensive)
+  let q8 = (x8 * 0.5) as u64;                                                            // 0..=3
   let up = x8 - (2 * q8 + 1) as f64;                                                     // exact, in [-1, 1)
   if lon.to_bits() >> 63 == 0 { (q8, up) } else { (3 - q8, -up) }
 }
@@ -69,7 +69,7 @@ fn k_c01_p(region: u8, neg: bool, bits: u8, quarter: u8, turn: u8) {
   {
     let xa = f64::from_bits(lon.to_bits() & 0x7FFF_FFFF_FFFF_FFFF) * FOUR_OVER_PI_K;
     kani::assume((xa < 8.0) == (turn == 0));
-    let xm = xa - 8.0 * ((xa / 8.0) as u64 as f64);
+    let xm = xa - 8.0 * ((xa * 0.125) as u64 as f64);
     kani::assume(xm >= 2.0 * quarter as f64 && xm < 2.0 * quarter as f64 + 2.0);
   }
   let (d0h, l, h) = Layer::d0h_lh_in_d0c(lon, lat);
@@ -90,7 +90,7 @@ fn k_c01_p(region: u8, neg: bool, bits: u8, quarter: u8, turn: u8) {
     kani::cover!(d0h < 4, "equatorial point in a north polar base cell");
     assert!(dx <= tol && dx >= -tol && (yc - yr) <= tol && (yc - yr) >= -tol, "C01-P: (base cell, l, h) is not the reference projection of the position (equatorial region)");
   } else {
-    let c = (alat / 2.0 + PI_OVER_FOUR_K).cos();
+    let c = (alat * 0.5 + PI_OVER_FOUR_K).cos();
     let t = SQRT6_K * c;
     let q = rq as f64;                          // facet 0..3
     let xm2 = ru + 1.0;                         // in [0, 2]
@@ -121,12 +121,14 @@ fn k_c01_p(region: u8, neg: bool, bits: u8, quarter: u8, turn: u8) {
 
 /// Coarse placement (quick tier): the reference projection of the position lies in (or within 2^-20 of) the closed diamond of the
 /// base cell returned by the real Layer::d0h_lh_in_d0c. Independent of the in-cell coordinates (decided by lemma P, thorough tier).
-fn k_c01_b(region: u8, neg: bool) {
+/// class (equatorial region only): 0 = north polar base cell returned, 1 = south polar, 2 = equatorial; 255 = any
+fn k_c01_b(region: u8, neg: bool, class: u8) {
   let (lon, lat) = lonlat();
   kani::assume((lon.to_bits() >> 63 == 1) == neg);
   kani::assume(match region { 0 => lat > C_T, 1 => lat >= -C_T && lat <= C_T, _ => lat < -C_T });
   let (d0h, _l, _h) = Layer::d0h_lh_in_d0c(lon, lat);
   kani::assume(d0h < 12);                                                                   // decided by lemma R
+  kani::assume(match class { 0 => d0h < 4, 1 => d0h >= 8, 2 => d0h >= 4 && d0h < 8, _ => true });
   let (rq, ru) = ref_quarter_u(lon);
   kani::cover!(lon > 7.0 || lon < -7.0, "second turn");
   if region == 1 {
@@ -138,8 +140,7 @@ fn k_c01_b(region: u8, neg: bool) {
     let au = if u < 0.0 { -u } else { u };
     let ay = if yr < 0.0 { -yr } else { yr };
     let tol = 9.5367431640625e-07;   // 2^-20
-    kani::cover!(d0h >= 8, "equatorial point in a south polar base cell");
-    kani::cover!(d0h < 4, "equatorial point in a north polar base cell");
+    kani::cover!(true, "class non empty");
     let ok = if d0h < 4 { d0h as u64 == q && au <= yr + tol }
              else if d0h >= 8 { d0h as u64 - 8 == q && au <= -yr + tol }
              else if d0h as u64 - 4 == q { u <= -ay + tol }
